@@ -1247,49 +1247,56 @@ def transform(fn, proceed, to_instrument=True, set_conformer=True):
     _, lineno = inspect.getsourcelines(fn)
     ast.increment_lineno(new_tree, lineno - 1)
     freevars = fn.__code__.co_freevars
-    new_fn = _compile(filename, new_tree, freevars)
+    module_code = _compile(filename, new_tree, freevars)
 
+    def _find_code(code, name):
+        for const in code.co_consts:
+            if isinstance(const, types.CodeType) and const.co_name == name:
+                return const
+        raise TypeError(  # pragma: no cover
+            f"Could not compile the transformed version of {fn}"
+        )
+
+    # The new function is built directly from the compiled code of its
+    # definition, on the defaults, annotations and closure cells of the
+    # original function. The definition is not executed: that would evaluate
+    # the default values again, rebind the global name of the function, and
+    # register the new code under the path of a top-level function of the
+    # file in codefind's registry.
     fname = fn.__name__
-    # The new function is defined in a separate namespace, so that the global
-    # variable that holds fn is never rebound, even temporarily (another
-    # thread may be calling it).
-    defined = {}
-    exec(new_fn, glb, defined)
+    holder = _find_code(module_code, "#WRAP") if freevars else module_code
+    new_code = _find_code(holder, fname)
+    cells = dict(zip(fn.__code__.co_freevars, fn.__closure__ or ()))
+    actual_fn = types.FunctionType(
+        new_code,
+        glb,
+        fname,
+        fn.__defaults__,
+        tuple(cells[name] for name in new_code.co_freevars) or None,
+    )
+    actual_fn.__kwdefaults__ = fn.__kwdefaults__
+    actual_fn.__annotations__ = dict(fn.__annotations__)
+    actual_fn.__doc__ = fn.__doc__
+    actual_fn.__qualname__ = fn.__qualname__
+    actual_fn.__module__ = fn.__module__
 
     try:
         from codefind import code_registry
 
+        # Make sure that the original code is registered, under its full
+        # path (enclosing classes and functions). If it already is, leave
+        # the registry alone: registering again would reset the entries of
+        # the functions nested in this one, which may be instrumented.
         co = fn.__code__
-        code_registry.assimilate(co, (co.co_filename,))
+        if not code_registry.backcodes.get(co):
+            qualpath = [
+                part
+                for part in fn.__qualname__.split(".")[:-1]
+                if part != "<locals>"
+            ]
+            code_registry.assimilate(co, (co.co_filename, *qualpath))
     except ImportError:  # pragma: no cover
         pass
-
-    # Get the new function (populated with exec)
-    if "#WRAP" in defined:
-        # If the function is a closure, we have created a function
-        # called #WRAP that takes the closure variables as arguments
-        # and returns the function that interests us.
-        wrapped_fn = defined.pop("#WRAP")(
-            *[cell.cell_contents for cell in fn.__closure__]
-        )
-        # Use the cells of the original function rather than copies of their
-        # contents, so that the closure variables remain shared with the
-        # enclosing scope (nonlocal assignments, later updates).
-        cells = dict(zip(fn.__code__.co_freevars, fn.__closure__))
-        actual_fn = types.FunctionType(
-            wrapped_fn.__code__,
-            glb,
-            wrapped_fn.__name__,
-            wrapped_fn.__defaults__,
-            tuple(cells[name] for name in wrapped_fn.__code__.co_freevars),
-        )
-        actual_fn.__kwdefaults__ = wrapped_fn.__kwdefaults__
-        actual_fn.__annotations__ = wrapped_fn.__annotations__
-        actual_fn.__doc__ = wrapped_fn.__doc__
-        actual_fn.__qualname__ = wrapped_fn.__qualname__
-        actual_fn.__module__ = wrapped_fn.__module__
-    else:
-        actual_fn = defined[fname]
 
     glb[fnsym] = actual_fn
 
@@ -1335,6 +1342,9 @@ class TransformSet:
             argdefs=fn.__defaults__,
             closure=fn.__closure__,
         )
+        self.base_function.__kwdefaults__ = fn.__kwdefaults__
+        self.base_function.__annotations__ = fn.__annotations__
+        self.base_function.__qualname__ = fn.__qualname__
         self.base_function.__ptera_discard__ = True
         self._register(None, fn)
 
